@@ -390,6 +390,8 @@ def r5(ctx, R):
     ReferenceImpl value; interface attribute access goes through get_attr."""
     prods = []
     for f in ctx.repo.all_funcs(modules=["modelx.core"]):
+        if f.short == "CallStack.rollback":
+            continue        # re-tags drained reads for the calling frame: decided by C05.R3
         for c in q.calls(f, name="append", recv_endswith="refstack"):
             prods.append((f, c))
     R.need(len(prods) >= 2, "expected >=2 producers of refstack, found %d" % len(prods))
